@@ -389,6 +389,12 @@ pub fn run_case(cl: &Clause, case: &Case, verbose: bool) -> CaseRun {
                 // IEEE signed zeros put atan2(-0, x<0) at -pi where the real
                 // function has +pi: accept the mirror image at the branch cut only
                 let at_cut = x.abs() > 3.141592 && x.abs() < 3.141593 && *lo <= -x && -x <= *hi;
+                // A native NaN where the reals have a value is a rounding artefact the
+                // interval engine cannot mirror (e.g. acos of 1+1ulp for exactly parallel
+                // inputs, DESIGN O4): not comparable, neither a monitor bug nor a verdict.
+                if x.is_nan() {
+                    continue;
+                }
                 if !(lo <= x && x <= hi) && !at_cut {
                     ok = false;
                     bad = format!("oracle value #{i}: native {x:?} outside [{lo:?}, {hi:?}]");
